@@ -27,12 +27,15 @@ struct XUtils : Engine {
         std::string K = ladder_key(n, pat), K2 = K, K3 = K + "x"; if (n > 0) K2[(size_t)n - 1] = K2[(size_t)n - 1] == 'z' ? 'y' : 'z'; else K2 = "q";
         RV leaf = RV::mk(RV::Obj); leaf.obj.emplace_back(K, RV::number(4));
         RV arr = RV::mk(RV::Arr); arr.arr.push_back(RV::number(0)); arr.arr.push_back(leaf);
-        RV inner = RV::mk(RV::Obj); inner.obj.emplace_back(K, arr); inner.obj.emplace_back(K3, RV::number(5));
-        RV o = RV::mk(RV::Obj); o.obj.emplace_back(K, RV::number(1)); o.obj.emplace_back(K2, RV::string(K)); o.obj.emplace_back(K3, inner); return o;
+        RV inner = RV::mk(RV::Obj); if (pat == 3) { inner.obj.emplace_back(K3, RV::number(5)); inner.obj.emplace_back(K, arr); } else { inner.obj.emplace_back(K, arr); inner.obj.emplace_back(K3, RV::number(5)); }
+        RV o = RV::mk(RV::Obj);
+        if (pat == 3) { o.obj.emplace_back(K3, inner); o.obj.emplace_back(K2, RV::string(K)); o.obj.emplace_back(K, RV::number(1)); }   // the longer name first, its proper prefix last
+        else { o.obj.emplace_back(K, RV::number(1)); o.obj.emplace_back(K2, RV::string(K)); o.obj.emplace_back(K3, inner); }
+        return o;
     }
     // numbers whose integer views coincide (saturation at INT_MAX / INT_MIN, truncation of fractions) although the values differ; pairwise far apart
     static std::vector<double> awkward_numbers() { return { 0, 1, -1, 0.5, 1.5, -0.5, 2147483647.0, 2147483648.0, 2147483649.0, 3e9, 4e9, -2147483648.0, -2147483649.0, -3e9, -4e9, 1e15, 1e15 + 2, 1700000000000.0, 1700000360000.0, 1e30, 1e300, -1e30, -1e300 }; }
-    static std::vector<RV> ladder_docs() { std::vector<RV> d; for (int n : ladder()) for (int pat = 0; pat < 3; pat++) { if (pat && n == 0) continue; if (pat == 2 && n > 70 && n % 16) continue; d.push_back(ladder_doc(n, pat)); } return d; }
+    static std::vector<RV> ladder_docs() { std::vector<RV> d; for (int n : ladder()) for (int pat = 0; pat < 4; pat++) { if (pat && pat != 3 && n == 0) continue; if (pat >= 2 && n > 70 && n % 16) continue; d.push_back(ladder_doc(n, pat)); } return d; }
     static std::vector<RV> docset(const std::string& which) {
         if (which == "len") return ladder_docs();
         TreeAlphabet al; al.max_arity = 3; al.max_depth = 3; al.dup_keys = false; std::vector<RV> d; int n = 3;
@@ -165,7 +168,7 @@ struct XUtils : Engine {
                     for (;;) { if (pool_take()) { for (int i = 0; i < l; i++) s[i] = A[od[i]]; static Case c; c.kind = K_RESOLVE; c.set(s); for (size_t d = 0; d < D.size(); d++) { c.iv[1] = (int64_t)d; pool_run(c); } } int i = l - 1; while (i >= 0 && ++od[i] == (int)sizeof A) od[i--] = 0; if (i < 0) break; } }
             } else if (stage == "resolve_special") {
                 std::vector<std::string> sp;
-                for (const char* t : { "01", "00", "1:", "1A", "+1", "1e0", "18446744073709551616", "18446744073709551617", "4294967296", "4294967297", " 1", "1 ", "-1", "0x1", "1.0", "29", "30", "10", "11", "9", "099", "1/", "a~", "~2", "~", "a~1b", "m~0n", "~01", "~10", "~00", "~11", "k~0~1", "k~/" })
+                for (const char* t : { "01", "00", "1:", "1A", "+1", "1e0", "18446744073709551616", "18446744073709551617", "4294967296", "4294967297", " 1", "1 ", "-1", "0x1", "1.0", "29", "30", "10", "11", "9", "099", "1/", "a~", "~2", "~", "a~1b", "m~0n", "~01", "~10", "~00", "~11", "k~0~1", "k~/", "#", "#/a", "#/0", "#a", "%2F", "\\/a" })
                     for (const char* pre : { "/", "", "/0/", "/a/", "/a~1b/", "/a~1b/10/", "//", "/~1/" }) for (const char* post : { "", "/", "/0", "/a", "/k~0~1" }) sp.push_back(std::string(pre) + t + post);
                 for (auto& s : sp) { if (!pool_take()) continue; static Case c; c.kind = K_RESOLVE; c.set(s); for (size_t d = 0; d < D.size(); d++) { c.iv[1] = (int64_t)d; pool_run(c); } }
             } else if (stage == "lengths") {
@@ -332,6 +335,10 @@ struct XUtils : Engine {
         construct_rec(d, D[d], Dreal[d], "");
         if (d < DrealCS.size()) construct_rec(d, D[d], DrealCS[d], "", DrealCS[d]);
         if (d < DrealNamed.size()) construct_rec(d, D[d], DrealNamed[d], "", DrealNamed[d]);
+        // the same tree under a holder in which references to the tree and to its first child come first: the pointer must lead to the node itself, not to a reference that shares its contents
+        { cJSON* tree = build_tree(D[d]); cJSON* holder = LIB(cJSON_CreateObject()); LIBV(cJSON_AddItemReferenceToObject(holder, "alias", tree)); if (tree->child) LIBV(cJSON_AddItemReferenceToObject(holder, "alias-of-child", tree->child));
+          cJSON* harr = LIB(cJSON_CreateArray()); LIBV(cJSON_AddItemReferenceToArray(harr, tree)); LIBV(cJSON_AddItemToObject(holder, "list", harr)); LIBV(cJSON_AddItemToObject(holder, "real", tree));
+          construct_rec(d, D[d], tree, "/real", holder); LIBV(cJSON_Delete(holder)); }
         size_t other = (d + 1) % D.size(); char* s = LIB(cJSONUtils_FindPointerFromObjectTo(Dreal[d], Dreal[other]));
         if (s) { V("pointer:construct-foreign", "FindPointerFromObjectTo returned \"" + printable(s) + "\" for a node outside the tree"); LIBV(cJSON_free(s)); }
         if (LIB(cJSONUtils_FindPointerFromObjectTo(nullptr, Dreal[d])) || LIB(cJSONUtils_FindPointerFromObjectTo(Dreal[d], nullptr))) V("pointer:construct-null-arg", "NULL argument accepted");
@@ -358,8 +365,8 @@ struct XUtils : Engine {
         else { size_t di = (size_t)c.iv[1]; if (di >= D.size() || !rv_deser(c.str(), patch)) return; docp = &D[di]; }
         const RV& DOC = *docp;
         int bvar = (int)(((uint64_t)(c.iv[1] + 1) + c.len) % 4);   // 1, 3: document and patch built with constant keys (flag bits in type); 2: array elements carry stale member names
-        auto bt = [&](const RV& v) { return bvar == 2 ? build_tree_named(v) : (bvar & 1) ? build_tree_cs(v) : build_tree(v); };
-        cJSON* doc = bt(DOC); cJSON* pt = bt(patch);
+        // 0: plain / plain, 1: constant keys / constant keys, 2: stale names on the document's array elements / plain patch, 3: constant keys / stale names on the patch's array elements
+        cJSON* doc = bvar == 2 ? build_tree_named(DOC) : (bvar & 1) ? build_tree_cs(DOC) : build_tree(DOC); cJSON* pt = bvar == 3 ? build_tree_named(patch) : bvar == 1 ? build_tree_cs(patch) : build_tree(patch);
         if (cfg.opt.count("hooks_stage")) { }
         int status = LIB(cJSONUtils_ApplyPatchesCaseSensitive(doc, pt)); ctr().calls++;
         RV ref = DOC; PatchEval pe; PatchVerdict pv = pe.apply(ref, patch);
